@@ -469,6 +469,327 @@ Section PlayerProofs.
         * destruct IH as [I1 [I2 [I3 [I4 I5]]]]. repeat split; auto.
           intros Hs k id Hin. destruct (I5 Hs k id Hin) as [G|G]; [|now right].
           apply (Permutation_in _ Hperm) in G. destruct G as [E|G]; [|now left].
-          inversion E; subst. right. rewrite Hs in Echk. cbn in Echk. lia.
+          rewrite Hs in Echk. cbn [andb] in Echk.
+          inversion E. right. lia.
   Qed.
 End PlayerProofs.
+
+(* ------------------------------------------------------------------ from the loop to `run` *)
+
+Lemma nth_offs ss id : nth id (map s_off ss) 0 = s_off (nth id ss no_strm).
+Proof. exact (map_nth s_off ss no_strm id). Qed.
+
+Lemma nth_evs ss id : nth id (map s_evs ss) [] = s_evs (nth id ss no_strm).
+Proof. exact (map_nth s_evs ss no_strm id). Qed.
+
+Lemma corr_sclocks ss id l :
+  map (corr (map s_off ss) id) l = map (fun e => fst e + s_off (nth id ss no_strm)) l.
+Proof. apply map_ext. intros e. unfold corr. now rewrite nth_offs. Qed.
+
+Lemma in_nth_strm ss s : In s ss -> exists id, (id < length ss)%nat /\ nth id ss no_strm = s.
+Proof. intros H. apply In_nth with (d := no_strm) in H. destruct H as [n [L E]]. eauto. Qed.
+
+Lemma filter_filter_imp {X} (p q : X -> bool) l :
+  (forall x, p x = true -> q x = true) -> filter p (filter q l) = filter p l.
+Proof.
+  intros H. induction l as [|a t IH]; cbn; auto.
+  destruct (q a) eqn:Eq; cbn; destruct (p a) eqn:Ep; cbn; try rewrite IH; auto.
+  apply H in Ep. congruence.
+Qed.
+
+Lemma filter_split_perm {X} (p : X -> bool) l :
+  Permutation l (filter p l ++ filter (fun x => negb (p x)) l).
+Proof.
+  induction l as [|a t IH]; cbn; auto. destruct (p a); cbn.
+  - now apply perm_skip.
+  - eapply perm_trans; [apply perm_skip; exact IH|]. apply Permutation_middle.
+Qed.
+
+(* per-stream order + no foreign ids ==> every event exactly once *)
+Lemma complete_from_order : forall ss k out,
+  (forall id, map as_ev (filter (from (k + id)) out) = s_evs (nth id ss no_strm)) ->
+  (forall o, In o out -> (k <= o_id o)%nat) ->
+  Permutation (map untime out) (tagged k ss).
+Proof.
+  induction ss as [|s t IH]; intros k out Hord Hlo.
+  - cbn. destruct out as [|o out']; auto. exfalso.
+    specialize (Hord (o_id o - k)%nat). replace (k + (o_id o - k))%nat with (o_id o) in Hord.
+    2:{ specialize (Hlo o (or_introl eq_refl)). lia. }
+    cbn [filter] in Hord. unfold from at 1 in Hord. rewrite Nat.eqb_refl in Hord.
+    destruct (o_id o - k)%nat; discriminate.
+  - cbn [tagged].
+    eapply perm_trans; [apply Permutation_map; apply (filter_split_perm (from k))|].
+    rewrite map_app. apply Permutation_app.
+    + pose proof (Hord 0%nat) as H0. rewrite Nat.add_0_r in H0. cbn [nth] in H0. rewrite <- H0.
+      rewrite map_map. apply Permutation_refl'. apply map_ext_in.
+      intros o Hin. apply filter_In in Hin as [_ Hf]. unfold from in Hf. apply Nat.eqb_eq in Hf.
+      unfold untime, as_ev. cbn. now rewrite Hf.
+    + apply IH.
+      * intros id. rewrite filter_filter_imp.
+        { replace (S k + id)%nat with (k + S id)%nat by lia. apply (Hord (S id)). }
+        intros o Hf. unfold from in *. apply Nat.eqb_eq in Hf. apply negb_true_iff, Nat.eqb_neq. lia.
+      * intros o Hin. apply filter_In in Hin as [Hin Hf]. apply negb_true_iff in Hf.
+        unfold from in Hf. apply Nat.eqb_neq in Hf. specialize (Hlo o Hin). lia.
+Qed.
+
+Lemma ssorted_filter {X} (f : X -> Z) (p : X -> bool) l :
+  StronglySorted Z.le (map f l) -> StronglySorted Z.le (map f (filter p l)).
+Proof.
+  induction l as [|a t IH]; cbn; intros H; [constructor|].
+  inversion H as [|? ? Hs Hf]; subst. destruct (p a); cbn; auto.
+  constructor; auto. apply Forall_forall. intros z Hz. rewrite Forall_forall in Hf. apply Hf.
+  apply in_map_iff in Hz as [x [E Hx]]. apply filter_In in Hx as [Hx _]. subst. now apply in_map.
+Qed.
+
+Lemma sorted_filter {X} (f : X -> Z) (p : X -> bool) l :
+  Sorted Z.le (map f l) -> Sorted Z.le (map f (filter p l)).
+Proof.
+  intros H. apply StronglySorted_Sorted. apply ssorted_filter.
+  apply Sorted_StronglySorted; auto. exact Z.le_trans.
+Qed.
+
+Lemma run_unfold sorted ss :
+  run sorted ss =
+  match pinit sorted (map s_off ss) 0 (map s_evs ss) [] with
+  | inl v => ([], v)
+  | inr h =>
+    if sorted && negb (gate_ok ss) then ([], VGate)
+    else ploop sorted (map s_off ss) (S (total (map s_evs ss))) (mkpst h (map s_evs ss) None None)
+  end.
+Proof. reflexivity. Qed.
+
+Lemma pinit_run sorted ss :
+  match pinit sorted (map s_off ss) 0 (map s_evs ss) [] with
+  | inr h =>
+      PInv (map s_off ss) (mkpst h (map s_evs ss) None None) /\
+      (sorted = true -> forall s e r, In s ss -> s_evs s = e :: r -> 0 <= fst e + s_off s)
+  | inl v => sorted = true /\ (exists id, v = VBackStream id) /\ exists s, In s ss /\ stream_ok s = false
+  end.
+Proof.
+  pose proof (pinit_spec sorted (map s_off ss) (map s_evs ss) [] []) as H.
+  cbn [length app] in H.
+  assert (Hinv : HeapInv stream_cmp []) by (intros j x y _ Hx; destruct j; discriminate).
+  specialize (H Hinv (NoDup_nil _)).
+  assert (H3 : forall k id, In (k, id) (@nil hnode) -> (id < 0)%nat /\
+     exists e r, nth id (map s_evs ss) [] = e :: r /\ k = corr (map s_off ss) id e) by (intros ? ? []).
+  assert (H4 : forall id, (id < 0)%nat -> nth id (map s_evs ss) [] <> [] -> In id (ids [])) by (intros; lia).
+  specialize (H H3 H4).
+  destruct (pinit sorted (map s_off ss) 0 (map s_evs ss) []) as [v|h].
+  - destruct H as [Hs [id [e [r [Ev [E Hlt]]]]]]. split; auto. split; [eauto|].
+    exists (nth id ss no_strm). split.
+    + apply nth_In. assert (L : (id < length (map s_evs ss))%nat) by (apply nth_nonnil_lt; rewrite E; discriminate).
+      now rewrite map_length in L.
+    + rewrite nth_evs in E. unfold stream_ok, sclocks. rewrite E. cbn.
+      unfold corr in Hlt. rewrite nth_offs in Hlt. apply andb_false_iff. left. lia.
+  - destruct H as [I1 [I2 [I3 [I4 I5]]]]. split.
+    + constructor; cbn [p_heap p_rem p_cur]; auto.
+      * intros; discriminate.
+    + intros Hs s e r Hin E. apply in_nth_strm in Hin as [id [L Es]].
+      assert (G : nth id (map s_evs ss) [] <> []) by (rewrite nth_evs, Es, E; discriminate).
+      apply I4, ids_in in G as [k G].
+      destruct (I5 Hs k id G) as [[]|Hk].
+      destruct (I3 k id G) as [e' [r' [E' Ek]]]. rewrite nth_evs, Es, E in E'. inversion E'; subst e' r'.
+      unfold corr in Ek. rewrite nth_offs, Es in Ek. lia.
+Qed.
+
+(* Everything a completed replay satisfies, in either mode *)
+Theorem run_VOk_spec sorted ss out :
+  run sorted ss = (out, VOk) ->
+  spec_complete ss out /\ spec_stream_order ss out /\ spec_corrected ss out /\ spec_dclock out /\
+  (sorted = true -> spec_sorted out /\ gate_ok ss = true /\ forall s, In s ss -> stream_ok s = true).
+Proof.
+  rewrite run_unfold. pose proof (pinit_run sorted ss) as Hi.
+  destruct (pinit sorted (map s_off ss) 0 (map s_evs ss) []) as [v|h].
+  { intros E. destruct Hi as [_ [[id Ev] _]]. subst v. discriminate. }
+  destruct Hi as [HI Hfirst].
+  destruct (sorted && negb (gate_ok ss)) eqn:Eg; [discriminate|].
+  intros E.
+  pose proof (ploop_order sorted _ _ _ _ HI E) as Hord. cbn [p_rem] in Hord.
+  destruct (ploop_events sorted _ _ _ _ _ HI E) as [Hcor [Hdc Hsrt]]. cbn [p_clk] in *.
+  assert (Ho : spec_stream_order ss out) by (intros id; rewrite Hord; apply nth_evs).
+  assert (Hc : spec_corrected ss out).
+  { unfold spec_corrected. eapply Forall_impl; [|exact Hcor]. cbn. intros o G. now rewrite G, nth_offs. }
+  split; [|split; [exact Ho|split; [exact Hc|split; [exact Hdc|]]]].
+  - apply complete_from_order; [|intros; lia]. intros id. apply Ho.
+  - intros Hs. specialize (Hsrt Hs). apply sortedb_Sorted in Hsrt.
+    split; [exact Hsrt|]. split.
+    { rewrite Hs in Eg. cbn in Eg. now apply negb_false_iff in Eg. }
+    intros s Hin. destruct (in_nth_strm _ _ Hin) as [id [L Es]].
+    assert (Esc : map o_sclock (filter (from id) out) = sclocks s).
+    { rewrite <- Es. unfold sclocks. rewrite <- (Ho id). rewrite map_map. apply map_ext_in.
+      intros o Hino. apply filter_In in Hino as [Hino Hf]. unfold from in Hf. apply Nat.eqb_eq in Hf.
+      unfold spec_corrected in Hc. rewrite Forall_forall in Hc. rewrite (Hc o Hino), Hf. reflexivity. }
+    assert (Hss : sortedb (sclocks s) = true).
+    { rewrite <- Esc. apply Sorted_sortedb. now apply sorted_filter. }
+    unfold stream_ok. unfold sclocks in *. destruct (s_evs s) as [|e r] eqn:Ee; auto.
+    cbn [map chainb] in *. apply andb_true_iff. split; [|exact Hss].
+    specialize (Hfirst Hs s e r Hin Ee). lia.
+Qed.
+
+(* Sorted streams are replayed completely and in order (both modes) *)
+Theorem run_sorted_streams (sorted : bool) (ss : list strm) :
+  (forall s, In s ss -> if sorted then stream_ok s = true else stream_sorted s = true) ->
+  (sorted = true -> gate_ok ss = true) ->
+  exists out, run sorted ss = (out, VOk) /\ spec_all ss out.
+Proof.
+  intros Hstreams Hgate.
+  assert (Hsorted : forall s, In s ss -> stream_sorted s = true).
+  { intros s Hin. specialize (Hstreams s Hin). destruct sorted; auto.
+    unfold stream_ok in Hstreams. unfold stream_sorted. eapply chainb_sortedb; eauto. }
+  assert (Hrun : exists out, run sorted ss = (out, VOk) /\ sortedb (map o_sclock out) = true).
+  { rewrite run_unfold. pose proof (pinit_run sorted ss) as Hi.
+    destruct (pinit sorted (map s_off ss) 0 (map s_evs ss) []) as [v|h].
+    { destruct Hi as [Hs [_ [s [Hin Hbad]]]]. specialize (Hstreams s Hin). rewrite Hs in Hstreams. congruence. }
+    destruct Hi as [HI _].
+    replace (sorted && negb (gate_ok ss)) with false.
+    2:{ destruct sorted; auto. rewrite Hgate; auto. }
+    destruct (ploop_ok sorted (map s_off ss) (S (total (map s_evs ss))) _ HI) as [out [E Hs]].
+    - split; [|split]; cbn [p_heap p_rem p_cur p_clk]; try (intros; discriminate).
+      intros id. rewrite nth_evs, corr_sclocks.
+      destruct (Nat.lt_ge_cases id (length ss)) as [L|G].
+      + apply (Hsorted (nth id ss no_strm)). now apply nth_In.
+      + rewrite nth_overflow by lia. reflexivity.
+    - cbn [p_rem]. lia.
+    - exists out. split; auto. }
+  destruct Hrun as [out [E Hs]]. exists out. split; [exact E|].
+  destruct (run_VOk_spec sorted ss out E) as [H1 [H2 [H3 [H4 _]]]].
+  repeat split; auto. now apply sortedb_Sorted.
+Qed.
+
+(* ovnidump mode never fails, whatever the clocks *)
+Theorem run_dump_total ss :
+  exists out, run false ss = (out, VOk) /\
+    spec_complete ss out /\ spec_stream_order ss out /\ spec_corrected ss out /\ spec_dclock out.
+Proof.
+  assert (Hrun : exists out, run false ss = (out, VOk)).
+  { rewrite run_unfold. pose proof (pinit_run false ss) as Hi.
+    destruct (pinit false (map s_off ss) 0 (map s_evs ss) []) as [v|h].
+    { destruct Hi as [Hs _]. discriminate. }
+    destruct Hi as [HI _]. cbn [andb].
+    destruct (ploop false (map s_off ss) (S (total (map s_evs ss))) (mkpst h (map s_evs ss) None None)) as [out v] eqn:E.
+    destruct (ploop_verdict false _ _ _ _ _ HI (Nat.lt_succ_diag_r _) E) as [->|[Hs _]]; [eauto | discriminate]. }
+  destruct Hrun as [out E]. exists out. split; [exact E|].
+  destruct (run_VOk_spec false ss out E) as [H1 [H2 [H3 [H4 _]]]]. auto.
+Qed.
+
+(* the emulator's verdict is never a model artefact *)
+Theorem run_verdict sorted ss out v :
+  run sorted ss = (out, v) ->
+  v = VOk \/ (sorted = true /\ ((exists id, v = VBackStream id) \/ v = VBackPlayer \/ v = VGate)).
+Proof.
+  rewrite run_unfold. pose proof (pinit_run sorted ss) as Hi.
+  destruct (pinit sorted (map s_off ss) 0 (map s_evs ss) []) as [v0|h].
+  { intros E; inversion E; subst. destruct Hi as [Hs [Hid _]]. right. split; auto. }
+  destruct Hi as [HI _].
+  destruct (sorted && negb (gate_ok ss)) eqn:Eg.
+  { intros E; inversion E; subst. apply andb_true_iff in Eg as [Hs _]. right. auto. }
+  intros E. destruct (ploop_verdict sorted _ _ _ _ _ HI (Nat.lt_succ_diag_r _) E) as [->|[Hs [G|G]]]; auto.
+Qed.
+
+(* ------------------------------------------------------------------ trace_load order *)
+
+Lemma str_le_total a b : str_le a b = true \/ str_le b a = true.
+Proof.
+  revert b; induction a as [|x a IH]; intros [|y b]; cbn; auto.
+  destruct (x <? y) eqn:E1; destruct (y <? x) eqn:E2; auto.
+Qed.
+
+Lemma str_le_trans a b c : str_le a b = true -> str_le b c = true -> str_le a c = true.
+Proof.
+  revert b c; induction a as [|x a IH]; intros [|y b] [|z c]; cbn; auto; try discriminate.
+  destruct (x <? y) eqn:E1; destruct (y <? x) eqn:E2; try discriminate;
+  destruct (y <? z) eqn:E3; destruct (z <? y) eqn:E4; try discriminate;
+  destruct (x <? z) eqn:E5; destruct (z <? x) eqn:E6; auto; try lia.
+  apply IH.
+Qed.
+
+Lemma str_le_antisym a b : str_le a b = true -> str_le b a = true -> a = b.
+Proof.
+  revert b; induction a as [|x a IH]; intros [|y b]; cbn; auto; try discriminate.
+  destruct (x <? y) eqn:E1; destruct (y <? x) eqn:E2; try discriminate; try lia.
+  intros H1 H2. f_equal; [lia | now apply IH].
+Qed.
+
+Definition path_le (x y : list Z * strm) : Prop := str_le (fst x) (fst y) = true.
+
+Lemma ins_stream_perm x l : Permutation (ins_stream x l) (x :: l).
+Proof.
+  induction l as [|y t IH]; cbn; auto. destruct (str_le (fst x) (fst y)); auto.
+  eapply perm_trans; [apply perm_skip; exact IH|]. apply perm_swap.
+Qed.
+
+Lemma sort_streams_perm l : Permutation (sort_streams l) l.
+Proof.
+  induction l as [|x t IH]; cbn; auto.
+  eapply perm_trans; [apply ins_stream_perm|]. now apply perm_skip.
+Qed.
+
+Lemma ins_stream_sorted x l : StronglySorted path_le l -> StronglySorted path_le (ins_stream x l).
+Proof.
+  induction l as [|y t IH]; cbn; intros H.
+  - constructor; constructor.
+  - inversion H as [|? ? Hs Hf]; subst.
+    destruct (str_le (fst x) (fst y)) eqn:E.
+    + constructor; auto. constructor; auto.
+      eapply Forall_impl; [|exact Hf]. intros z Hz. unfold path_le in *. eapply str_le_trans; eauto.
+    + constructor; auto. apply Forall_forall. intros z Hz.
+      apply (Permutation_in _ (ins_stream_perm x t)) in Hz. destruct Hz as [<-|Hz].
+      * unfold path_le. destruct (str_le_total (fst x) (fst y)); congruence.
+      * rewrite Forall_forall in Hf. now apply Hf.
+Qed.
+
+Lemma sort_streams_sorted l : StronglySorted path_le (sort_streams l).
+Proof. induction l as [|x t IH]; cbn; [constructor | now apply ins_stream_sorted]. Qed.
+
+Lemma nodup_map_inj {X Y} (f : X -> Y) l x y :
+  NoDup (map f l) -> In x l -> In y l -> f x = f y -> x = y.
+Proof.
+  induction l as [|a t IH]; cbn; intros Hn Hx Hy E; [contradiction|].
+  inversion Hn as [|? ? Hnot Hn']; subst.
+  destruct Hx as [->|Hx]; destruct Hy as [->|Hy]; auto.
+  - exfalso. apply Hnot. rewrite E. now apply in_map.
+  - exfalso. apply Hnot. rewrite <- E. now apply in_map.
+Qed.
+
+(* a sorted list without duplicate keys is determined by its content *)
+Lemma sorted_perm_unique l1 : forall l2,
+  StronglySorted path_le l1 -> StronglySorted path_le l2 -> Permutation l1 l2 ->
+  NoDup (map fst l1) -> l1 = l2.
+Proof.
+  induction l1 as [|x t1 IH]; intros l2 S1 S2 P Hn.
+  - apply Permutation_nil in P. now subst.
+  - destruct l2 as [|y t2]; [apply Permutation_sym, Permutation_nil in P; discriminate|].
+    inversion S1 as [|? ? S1' F1]; inversion S2 as [|? ? S2' F2]; subst.
+    assert (Exy : x = y).
+    { assert (Hx : In x (y :: t2)) by (apply (Permutation_in _ P); now left).
+      assert (Hy : In y (x :: t1)) by (apply (Permutation_in _ (Permutation_sym P)); now left).
+      destruct Hx as [->|Hx]; auto. destruct Hy as [->|Hy]; auto.
+      rewrite Forall_forall in F1, F2.
+      apply (nodup_map_inj fst (x :: t1)); auto; [now left | now right |].
+      apply str_le_antisym; [apply (F1 y Hy) | apply (F2 x Hx)]. }
+    subst y. f_equal. apply IH; auto.
+    + eapply Permutation_cons_inv; eauto.
+    + now inversion Hn.
+Qed.
+
+Theorem sort_streams_enum_independent l l' :
+  Permutation l l' -> NoDup (map fst l) -> sort_streams l = sort_streams l'.
+Proof.
+  intros P Hn. apply sorted_perm_unique; try apply sort_streams_sorted.
+  - eapply perm_trans; [apply sort_streams_perm|].
+    eapply perm_trans; [exact P|]. apply Permutation_sym, sort_streams_perm.
+  - eapply Permutation_NoDup; [|exact Hn]. apply Permutation_map, Permutation_sym, sort_streams_perm.
+Qed.
+
+Theorem run_emu_enum_independent l l' :
+  Permutation l l' -> NoDup (map fst l) -> run_emu l = run_emu l'.
+Proof. intros P Hn. unfold run_emu. now rewrite (sort_streams_enum_independent l l' P Hn). Qed.
+
+Theorem run_dump_enum_independent l l' :
+  Permutation l l' -> NoDup (map fst l) -> run_dump l = run_dump l'.
+Proof.
+  intros P Hn. unfold run_dump.
+  rewrite (sort_streams_enum_independent (map zero_off l) (map zero_off l')); auto.
+  - now apply Permutation_map.
+  - rewrite map_map. cbn. exact Hn.
+Qed.
